@@ -203,14 +203,15 @@ def solve_scipy(
 
     solve_time = time.perf_counter() - start_time
 
-    # Check if constraints are satisfied (SLSQP can return "optimal" with violated constraints)
+    # Check if constraints are satisfied (SLSQP can return "optimal" with violated constraints).
+    # The check runs whatever SciPy reported: some non-success messages are mapped to OPTIMAL below.
     # Use scaled tolerance: atol + rtol * max(1, |constraint_value|)
     atol = tol if tol is not None else 1e-6
     rtol = 1e-6
     constraints_violated = False
     max_violation = 0.0
 
-    if result.success and scipy_constraints:
+    if scipy_constraints:
         for c in scipy_constraints:
             c_val = c["fun"](result.x)
             # Scaled tolerance based on constraint magnitude
@@ -228,7 +229,7 @@ def solve_scipy(
                 constraints_violated = True
 
     # If SLSQP returned "optimal" but constraints are violated, retry with trust-constr
-    if constraints_violated and method == "SLSQP":
+    if result.success and constraints_violated and method == "SLSQP":
         warnings.warn(
             f"SLSQP returned a solution that violates constraints (max violation: {max_violation:.2e}). "
             "Retrying with trust-constr method for more robust optimization.",
